@@ -248,8 +248,18 @@ func race(e *Enc, o *Obligation, ms, seed int) *Result {
 		}
 		n++
 		go func(s SolverCfg) {
-			out, secs, _ := runSolver(ctx, s, script, ms, seed)
-			ch <- ans{firstAnswer(out), out, s.Name, secs}
+			sc := script
+			if strings.HasPrefix(s.Name, "z3") {
+				// z3 can report sat with a model it cannot validate (seen with floating point + arrays): such an
+				// answer is not a counterexample
+				sc = "(set-option :model_validate true)\n" + script
+			}
+			out, secs, _ := runSolver(ctx, s, sc, ms, seed)
+			a := firstAnswer(out)
+			if a == "sat" && strings.Contains(out, "invalid model") {
+				a = "unknown"
+			}
+			ch <- ans{a, out, s.Name, secs}
 		}(s)
 	}
 	best := &Result{Ob: o, Status: "unknown", Size: o.Prefix}
